@@ -12,6 +12,7 @@
 #include "prog/domains.hpp"
 #include "prog/interp.hpp"
 #include "prog/member.hpp"
+#include "prog/params.hpp"
 
 #include <crab/fixpoint/thresholds.hpp>
 
@@ -1177,7 +1178,7 @@ void run_case(const uint8_t *data, size_t size, CaseCtx &ctx) {
   Tape t(data, size);
   crab::CrabSanityCheckFlag = false;
   crab::CrabWarningFlag = false;
-  crab::domains::crab_domain_params_man::get() = crab::domains::crab_domain_params();
+  decode_domain_params(t, VERIF_VARIANT, ctx.log);
   Universe u;
   u.vfac = std::make_shared<variable_factory_t>();
   auto &vf = *u.vfac;
